@@ -145,6 +145,23 @@ class IWorkCalendar(ABC):
     def __sub__(self, other):
         return WorkCalendarSub([self, self.__prepare_calendar(other)])
 
+    # A number on the left of an operator (2 * calendar, 10 - calendar, 1 | calendar) is a constant calendar as well
+
+    def __ror__(self, other):
+        return WorkCalendarDisjunction([self.__prepare_calendar(other), self])
+
+    def __rtruediv__(self, other):
+        return WorkCalendarDiv([self.__prepare_calendar(other), self])
+
+    def __rmul__(self, other):
+        return WorkCalendarsMul([self.__prepare_calendar(other), self])
+
+    def __radd__(self, other):
+        return WorkCalendarSum([self.__prepare_calendar(other), self])
+
+    def __rsub__(self, other):
+        return WorkCalendarSub([self.__prepare_calendar(other), self])
+
 
 class WorkCalendarDisjunction(IWorkCalendar):
 
